@@ -76,6 +76,32 @@ func (g *gctx) abrupt(sc scope) Stmt {
 	return Stmt{K: "throw", N: 200 + g.nextEv}
 }
 
+// branch picks a break/continue that is legal in the scope
+func (g *gctx) branch(sc scope) (Stmt, bool) {
+	r := g.r
+	for tries := 0; tries < 6; tries++ {
+		switch r.Intn(4) {
+		case 0:
+			if sc.inLoop {
+				return Stmt{K: "break"}, true
+			}
+		case 1:
+			if len(sc.labels) > 0 {
+				return Stmt{K: "break", L: sc.labels[r.Intn(len(sc.labels))]}, true
+			}
+		case 2:
+			if sc.inLoop {
+				return Stmt{K: "cont"}, true
+			}
+		case 3:
+			if len(sc.loopLabels) > 0 {
+				return Stmt{K: "cont", L: sc.loopLabels[r.Intn(len(sc.loopLabels))]}, true
+			}
+		}
+	}
+	return Stmt{}, false
+}
+
 func (g *gctx) iter() *Iter {
 	r := g.r
 	g.nextIt++
@@ -151,6 +177,11 @@ func (g *gctx) stmt(sc scope, depth int) Stmt {
 		}
 		if s.HasF {
 			s.C = g.list(sc, depth-1, 2)
+			// a finally list ending in a direct branch, preceded by a conditional nested branch (finding C08-N7 region)
+			if b1, ok := g.branch(sc); ok && r.Chance(12) {
+				b2, _ := g.branch(sc)
+				s.C = []Stmt{{K: "if", A: []Stmt{b1}, B: []Stmt{{K: "block"}}}, b2}
+			}
 		}
 		return s
 	case 2: // loop
